@@ -305,7 +305,7 @@ _AM = ("forenoon", "morning", "first")
 def pod_table():
     out = {}
     for key, (h0, h1) in T.pod_hours.items():
-        out[key] = {"h0": int(h0), "h1": int(h1), "pm": any(s in key for s in _PM),
+        out[key] = {"h0": int(h0), "h1": int(h1), "aft": "afternoon" in key, "pm": any(s in key for s in _PM),
                     "am": any(s in key for s in _AM)}
     return out
 
@@ -324,8 +324,8 @@ def write_pod_module(dirname):
         v = tab[key]
         if not key.isascii() or not key.isalnum():
             continue
-        rows.append('  %s |-> [h0 |-> %d, h1 |-> %d, pm |-> %s, am |-> %s]' % (
-            key, v["h0"], v["h1"], "TRUE" if v["pm"] else "FALSE", "TRUE" if v["am"] else "FALSE"))
+        rows.append('  %s |-> [h0 |-> %d, h1 |-> %d, pm |-> %s, am |-> %s, aft |-> %s]' % (
+            key, v["h0"], v["h1"], "TRUE" if v["pm"] else "FALSE", "TRUE" if v["am"] else "FALSE", "TRUE" if v["aft"] else "FALSE"))
     body = ("------------------------------ MODULE PodData ------------------------------\n"
             "(* GENERATED at check time from ctparse.types.pod_hours of the tree under test *)\n"
             "PodTable == [\n" + ",\n".join(rows) + "\n]\n"
